@@ -28,6 +28,14 @@ PKGS = ["bec2format", "appnotes/register_crypto_plugin"]
 
 
 def make_copy(dst):
+    if os.environ.get("SELFTEST_FROM_HEAD") == "1":
+        # copy of the committed tree (for use while something else has the working tree of /repo temporarily modified)
+        for p in PKGS:
+            os.makedirs(os.path.join(dst, os.path.dirname(p)), exist_ok=True)
+        a = subprocess.Popen(["git", "-C", REPO, "archive", "HEAD"] + PKGS, stdout=subprocess.PIPE)
+        subprocess.run(["tar", "-x", "-C", dst], stdin=a.stdout, check=True)
+        a.wait()
+        return
     for p in PKGS:
         shutil.copytree(os.path.join(REPO, p), os.path.join(dst, p), ignore=shutil.ignore_patterns("__pycache__", "test_*.py"))
 
